@@ -139,3 +139,11 @@ CLAIMS["C16"] = {
     "note": "The expected error is derived from the attempts observed at the RoundTripper (grouped by body), so it does not depend on how goroutines interleave. A second callback arriving later than the grace period would be missed. Real-time reconnect timers bound the socket cases.",
     "technique": "fault enumeration over scripted transport outcomes + property-based testing (rapid) for longer scripts, on a mock clock",
 }
+
+CLAIMS["C17"] = {
+    "text": "Maps flushed by a real aggregator (name tokens, tags with distinct keys plus a value-less tag, two hosts, finite values with <= 6 decimals, idle series, gsd_histogram timers under bucket limits, percentiles, sub-metric masks) are sent with batch sizes 1..60 and compression on/off to datadog, influxdb v1/v2, newrelic infra/insights/metrics, otlp AsGauge/AsHistogram, cloudwatch (scripted transport) and graphite legacy/basic/tags (loopback listener). "
+            "Decoders written in the harness (JSON, influx line protocol with escapes, graphite lines, ExportMetricsServiceRequest, awsquery form, with gzip/deflate) must accept every payload; the multiset of values decoded per series identity (name token, tag set, host where the format carries it) over all payloads of the flush must equal the aggregate's enabled sub-metrics - each exactly once, nothing for unknown series; "
+            "influx lines and otlp metrics per request must not exceed the batch size and cloudwatch calls 20 data. The statsd relay (udp/tcp) output is parsed back with gostatsd's own lexer and must reproduce names, tags (+ s:source), counter totals, gauge values, timer values and set members, with datagrams <= 1472 bytes unless a single line is longer; relayed events must parse back to the same fields. Exploration.",
+    "note": "Known finding (printed as KNOWN-FINDING, excluded from the generator for that variant, re-checked by a probe): newrelic flush-type metrics emits sets without type and value. Representation choices that are documented or inherent (newrelic numeric tag values, histogram buckets as counters with a zero rate, sources not transmitted by influxdb/cloudwatch/graphite basic) are modelled, not asserted against.",
+    "technique": "property-based testing (rapid): independent protocol decoders + multiset conservation oracle; round trip of the relay through the system's own parser",
+}
